@@ -169,6 +169,14 @@ def c03(view, info):
                     'c03.lease',
                     '%s on %s: lease ends %s, server reboots %s' %
                     (aname, srv, exp, server.valid_until))
+            # the lease the instance asked for, counted from this cycle
+            if not info.c0 + lease < server.valid_until:
+                raise Violation(
+                    'c03.lease-short',
+                    '%s asked for a lease of %ss and was %s %s at %s, but '
+                    'the server is due for reboot at %s' % (
+                        aname, lease, 'assigned to' if assigned else
+                        'renewed on', srv, info.c0, server.valid_until))
     for aname, app in sorted(cell.apps.items()):
         if app.server is None or app.server not in servers:
             continue
